@@ -13,7 +13,11 @@ from props.C04 import collect, independent_product
 
 ID = "C16"
 TRUSTED = ["independence and uniformity of Python's random.random()/choice() (the draws are the model's inputs)",
-           "int -> float conversion of len(values) is exact (small integers)"]
+           "int -> float conversion of len(values) is exact (small integers)",
+           "translator tie of the honeyword loop: harness/translate_session.py (ast -> Gallina, fail closed; accepted subset and what "
+           "it does not model in its docstring) and the meaning coq/theories/SessionRt.v gives to `while True`, break, try/except "
+           "OSError and `if limit:`; random.seed, random_walk, create_guesses and self.random_seed are operations on an abstract "
+           "world specified by honey_world in C16_source_honeyword_run_is_model"]
 ASSUMES = ["ruleset as the trainer writes it: every list sums to 1 up to rounding",
            "the probability statement is exact over Q (select_interval_Q); in binary64 the breakpoints are the float running sums, "
            "which the oracle requires to be within 1e-12 of the exact ones"]
@@ -371,6 +375,9 @@ def run(ctx):
             corr.append(("walk:" + name, False, "model walk and random_walk differ for draw lists %s of %s" % (idx[:10], name)))
         else:
             corr.append(("walk:" + name, True, ""))
+    # translator tie of the session loop (HoneywordSession.run = Honey.honey_loop)
+    import session_tie
+    corr.append(session_tie.obligation("honey"))
     rule = ("normalised generated rulesets; random.random()/choice() inside pcfg_grammar replaced by scripted draws: for the base structure "
             "EVERY breakpoint of the float running sum, its two neighbours (nextafter), every midpoint, 0, 5e-324 and 1-2^-53; per position a "
             "draw from the same construction; every walk expanded to its honeyword with scripted value/mask picks and checked against the "
